@@ -22,6 +22,8 @@ RULES = {
     "C12-A1": "no function of the primitive modules mutates a parameter other than its receiver, nor an alias (view) of one",
     "C12-A2": "a field that holds a view of a constructor argument is never mutated in place by a method",
     "C12-O1": "contains_point is half-open, do_intersect closed on both sides, sign/sign0 piecewise constants, angle folding threshold pi",
+    "C12-R1": "rotate_2d and rotate_around_axis are linear maps whose matrix, extracted from the source as polynomials in (cos, sin, axis), "
+              "is orthogonal with determinant 1 and fixes the axis, identically modulo cos^2+sin^2=1 and |axis|=1 (a polynomial proof for all inputs)",
     "C12-B1": "box algebra: intersection = (max of minima, min of maxima), union = (min of minima, max of maxima), projection clamps, distance uses max(mini - p, p - maxi, 0)",
 }
 
@@ -37,6 +39,7 @@ def run(ctx):
     a2_borrowed_fields(ctx, fr)
     o1_predicates(ctx)
     b1_box_algebra(ctx)
+    r1_rotation_matrices(ctx)
 
 
 # ---------------------------------------------------------------------------- E1
@@ -501,3 +504,127 @@ def b1_box_algebra(ctx):
         p = sym.to_poly(r[0].value, atom_of=lambda e: {"self._p1": "lo", "self.mini": "lo", "self._p2": "hi", "self.maxi": "hi"}.get(au.src(e)))
         ok = p == (sym.Poly.atom("lo") + sym.Poly.atom("hi")).scale(sym.Fraction(1, 2))
     ctx.check(ok, "C12-B1", ctx.site(AABB, fn), "center is not (mini + maxi) / 2", "")
+
+
+# ---------------------------------------------------------------------------- R1
+def _reduce(poly, var, repl):
+    """replace var^2 by the polynomial `repl` until var occurs with degree <= 1 in every monomial"""
+    P = sym.Poly
+    for _ in range(12):
+        changed = False
+        out = P()
+        for mono, coef in poly.t.items():
+            k = mono.count(var)
+            if k >= 2:
+                rest = list(mono)
+                rest.remove(var)
+                rest.remove(var)
+                out = out + P({tuple(rest): coef}) * repl
+                changed = True
+            else:
+                out = out + P({mono: coef})
+        poly = out
+        if not changed:
+            break
+    return poly
+
+
+def _linear_map(fn, out_name, in_expr_of, comps, atom_of):
+    """rows of the matrix of the stores out.<comp> = sum_j coef_j * in_j : {comp: {j: Poly}}"""
+    rows = {}
+    for st in au.stmts(fn.body):
+        if isinstance(st, ast.Assign) and isinstance(st.targets[0], ast.Attribute) and isinstance(st.targets[0].value, ast.Name) \
+                and st.targets[0].value.id == out_name and st.targets[0].attr in comps:
+            p = sym.to_poly(st.value, atom_of=atom_of, opaque=False)
+            row = {}
+            for j in in_expr_of.values():
+                row[j] = p.coeff(j)
+                if p.degree_in(j) > 1:
+                    raise sym.NotPoly("not linear")
+            rest = p
+            for j in in_expr_of.values():
+                rest = rest.without(j)
+            if not rest.is_zero():
+                raise sym.NotPoly("affine part")
+            rows[st.targets[0].attr] = row
+    return rows
+
+
+def r1_rotation_matrices(ctx):
+    repo = ctx.repo
+    P = sym.Poly
+    RO = "geometry.rotations"
+    # ---- rotate_2d
+    fn = repo.func(RO, "rotate_2d")
+    site = ctx.site(RO, fn)
+    v, ang = au.params(fn)[:2]
+    b = sym.Bindings(fn)
+    cs = {}
+    for st in fn.body:
+        for name, val in sym.split_assign(st):
+            if isinstance(val, ast.Call) and au.call_tail(val) in ("cos", "sin") and au.src(val.args[0]) == ang:
+                cs[name] = "C" if au.call_tail(val) == "cos" else "S"
+    outs = [st.targets[0].id for st in fn.body if isinstance(st, ast.Assign) and isinstance(st.targets[0], ast.Name)
+            and isinstance(st.value, ast.Call) and au.call_tail(st.value) == "Vec"]
+    ok = False
+    detail = ""
+    try:
+        if len(cs) == 2 and outs:
+            ins = {f"{v}[0]": "x0", f"{v}[1]": "x1", f"{v}.x": "x0", f"{v}.y": "x1"}
+            atom = lambda e: ins.get(au.src(e)) or (cs.get(e.id) if isinstance(e, ast.Name) else None)
+            rows = _linear_map(fn, outs[0], {"a": "x0", "b": "x1"}, ("x", "y"), atom)
+            M = [[rows["x"]["x0"], rows["x"]["x1"]], [rows["y"]["x0"], rows["y"]["x1"]]]
+            one_minus = P.const(1) - P.atom("C") * P.atom("C")
+            red = lambda q: _reduce(q, "S", one_minus)
+            mtm = [[red(M[0][i] * M[0][j] + M[1][i] * M[1][j]) for j in range(2)] for i in range(2)]
+            det = red(M[0][0] * M[1][1] - M[0][1] * M[1][0])
+            ok = mtm[0][0] == P.const(1) and mtm[1][1] == P.const(1) and mtm[0][1].is_zero() and det == P.const(1)
+            # counter-clockwise for positive angles: M = [[C,-S],[S,C]]
+            ok = ok and M[1][0] == P.atom("S")
+            detail = f"M = {M}"
+    except (sym.NotPoly, KeyError) as e:
+        detail = f"not a linear map of the input: {e}"
+    ctx.check(ok, "C12-R1", site, "rotate_2d is not the rotation matrix [[cos, -sin], [sin, cos]] applied to its argument",
+              f"M^T M = I and det M = 1 must hold identically modulo cos^2 + sin^2 = 1 ({detail})", note="2x2 matrix orthogonal, det 1")
+    # ---- rotate_around_axis
+    fn = repo.func(RO, "rotate_around_axis")
+    site = ctx.site(RO, fn)
+    inp, axis_p, ang = au.params(fn)[:3]
+    cs, uvw, axis_name = {}, None, None
+    for st in fn.body:
+        for name, val in sym.split_assign(st):
+            if isinstance(val, ast.Call) and au.call_tail(val) in ("cos", "sin") and au.src(val.args[0]) == ang:
+                cs[name] = "C" if au.call_tail(val) == "cos" else "S"
+            if isinstance(val, ast.Call) and au.call_tail(val) == "normalized" and au.src(val.args[0]) == axis_p:
+                axis_name = name
+        if isinstance(st, ast.Assign) and isinstance(st.targets[0], ast.Tuple) and len(st.targets[0].elts) == 3 \
+                and isinstance(st.value, ast.Name) and st.value.id == axis_name:
+            uvw = [x.id for x in st.targets[0].elts]
+    outs = [st.targets[0].id for st in fn.body if isinstance(st, ast.Assign) and isinstance(st.targets[0], ast.Name)
+            and isinstance(st.value, ast.Call) and au.call_tail(st.value) == "Vec" and len(st.value.args) == 3]
+    ok = False
+    detail = ""
+    try:
+        if len(cs) == 2 and uvw and outs:
+            amap = dict(zip(uvw, "UVW"))
+            ins = {f"{inp}.x": "x0", f"{inp}.y": "x1", f"{inp}.z": "x2", f"{inp}[0]": "x0", f"{inp}[1]": "x1", f"{inp}[2]": "x2"}
+            atom = lambda e: ins.get(au.src(e)) or ((cs.get(e.id) or amap.get(e.id)) if isinstance(e, ast.Name) else None)
+            rows = _linear_map(fn, outs[0], {"a": "x0", "b": "x1", "c": "x2"}, ("x", "y", "z"), atom)
+            R = [[rows[c][j] for j in ("x0", "x1", "x2")] for c in ("x", "y", "z")]
+            s2 = P.const(1) - P.atom("C") * P.atom("C")
+            w2 = P.const(1) - P.atom("U") * P.atom("U") - P.atom("V") * P.atom("V")
+            red = lambda q: _reduce(_reduce(q, "S", s2), "W", w2)
+            ax = [P.atom("U"), P.atom("V"), P.atom("W")]
+            fixes = all(red(R[i][0] * ax[0] + R[i][1] * ax[1] + R[i][2] * ax[2] - ax[i]).is_zero() for i in range(3))
+            ortho = all((red(sum((R[k][i] * R[k][j] for k in range(3)), P())) - P.const(1 if i == j else 0)).is_zero()
+                        for i in range(3) for j in range(3))
+            det = red(R[0][0] * (R[1][1] * R[2][2] - R[1][2] * R[2][1]) - R[0][1] * (R[1][0] * R[2][2] - R[1][2] * R[2][0])
+                      + R[0][2] * (R[1][0] * R[2][1] - R[1][1] * R[2][0]))
+            trace = red(R[0][0] + R[1][1] + R[2][2])
+            ok = fixes and ortho and det == P.const(1) and trace == P.const(1) + P.atom("C").scale(2)
+            detail = f"fixes axis: {fixes}, orthogonal: {ortho}, det: {det}, trace: {trace}"
+    except (sym.NotPoly, KeyError) as e:
+        detail = f"not a linear map of the input: {e}"
+    ctx.check(ok, "C12-R1", site, "rotate_around_axis is not Rodrigues' rotation matrix of (unit axis, angle) applied to its argument",
+              f"R axis = axis, R^T R = I, det R = 1 and trace R = 1 + 2 cos must hold identically modulo cos^2+sin^2 = 1 and |axis| = 1 ({detail})",
+              note="3x3 matrix fixes the axis, orthogonal, det 1, trace 1 + 2cos")
